@@ -83,7 +83,7 @@ Init ==
   /\ S = [p \in Procs |-> NilSig]
   /\ L = [p \in Procs |-> LInit]
   /\ token = [p \in Procs |-> FALSE] /\ woken = {} /\ now = 0
-  /\ G = [delivered |-> <<>>, dropped |-> <<>>, created |-> {}, order |-> <<>>]
+  /\ G = [delivered |-> <<>>, dropped |-> <<>>, created |-> {}, order |-> <<>>, acc |-> <<>>]
 
 \* =========================================================================
 \* operation start (the public call is entered; no hook yet)
@@ -156,21 +156,21 @@ SendBody(p) ==
      [c |-> <<>>, s |-> <<>>,
       l |-> done @@ [pc |-> "unlock", after |-> "dropdata", res |-> IF C.sc = 0 THEN "Closed" ELSE "RecvClosed"]]
   ELSE IF C.rb /\ C.wl # <<>> THEN          \* next_recv() = Some(first)
-     [c |-> [wl |-> Tail(C.wl)], s |-> <<>>, o |-> <<L[p].msg>>,
+     [c |-> [wl |-> Tail(C.wl)], s |-> <<>>, o |-> <<L[p].msg>>, a |-> <<L[p].msg>>,
       l |-> done @@ [pc |-> "unlock", after |-> IF async THEN "a_read" ELSE "hw", cont |-> "hand",
                      tgt |-> Head(C.wl), res |-> "Ok"]]
   ELSE
      LET c0 == IF C.rb THEN [rb |-> FALSE] ELSE <<>> IN     \* next_recv() flips the flag on an empty list
      IF Len(C.queue) < Cap THEN
         IF async THEN [c |-> c0, s |-> <<>>, l |-> done @@ [pc |-> "a_read", cont |-> "push", res |-> "Ok"]]
-        ELSE [c |-> c0 @@ [queue |-> Append(C.queue, L[p].msg)], s |-> <<>>,
+        ELSE [c |-> c0 @@ [queue |-> Append(C.queue, L[p].msg)], s |-> <<>>, a |-> <<L[p].msg>>,
               l |-> [pc |-> "unlock", after |-> "ret", res |-> "Ok"]]
      ELSE IF k \in TryKinds THEN
         [c |-> c0, s |-> <<>>, l |-> [pc |-> "unlock", after |-> "dropdata", res |-> "Full"]]
      ELSE IF async THEN
         [c |-> c0, s |-> <<>>, l |-> [pc |-> "rz_fw", fst |-> "Waiting", res |-> NONE]]
      ELSE
-        [c |-> c0 @@ [wl |-> Append(C.wl, p)], s |-> SyncReg(p, L[p].msg),
+        [c |-> c0 @@ [wl |-> Append(C.wl, p)], s |-> SyncReg(p, L[p].msg), a |-> <<L[p].msg>>,
          l |-> [pc |-> "unlock", after |-> waitpc, res |-> NONE]]
 
 RecvBody(p) ==
@@ -295,8 +295,8 @@ Lock(p) ==
      \* close destroys the buffered values under the lock (queue.clear())
      /\ G' = IF "queue" \in DOMAIN b.c /\ L[p].kind = "close" /\ L[p].csk = "op"
              THEN [G EXCEPT !.dropped = BumpAll(@, C.queue)]
-             ELSE IF "o" \in DOMAIN b THEN [G EXCEPT !.order = @ \o b.o]   \* hand-out order is fixed under the lock
-             ELSE G
+             ELSE [G EXCEPT !.order = IF "o" \in DOMAIN b THEN @ \o b.o ELSE @,    \* hand-out order is fixed under the lock
+                            !.acc = IF "a" \in DOMAIN b THEN @ \o b.a ELSE @]      \* and so is the order of acceptance
   /\ UNCHANGED <<token, woken, now>>
 
 \* try_acquire_internal fails: the realtime variants give up after one CAS (lib.rs try_*_realtime)
@@ -317,7 +317,8 @@ RzClone(p) ==
   /\ L[p].pc = "rz_clone"
   /\ SSet(p, [wk |-> L[p].curw]) /\ CSet([wl |-> Append(C.wl, p)])
   /\ LSet(p, [pc |-> "unlock", after |-> "f_pend"])
-  /\ UNCHANGED <<token, woken, now, G>>
+  /\ G' = IF L[p].kind = "asend" THEN [G EXCEPT !.acc = Append(@, L[p].msg)] ELSE G
+  /\ UNCHANGED <<token, woken, now>>
 \* register_waker on a waker change
 RwFw(p) == /\ L[p].pc = "rw_fw" /\ LSet(p, [pc |-> "rw_clone"]) /\ UNCHANGED <<C, S, token, woken, now, G>>
 RwClone(p) ==
@@ -334,8 +335,9 @@ ARead(p) ==
   /\ L[p].pc = "a_read" /\ Assert(S[p].slot = L[p].msg, "send future lost its data")
   /\ IF L[p].cont = "push"
        THEN CSet([queue |-> Append(C.queue, L[p].msg)]) /\ LSet(p, [pc |-> "unlock", after |-> "ret"])
-       ELSE LSet(p, [pc |-> "hw"]) /\ UNCHANGED C
-  /\ UNCHANGED <<S, token, woken, now, G>>
+            /\ G' = [G EXCEPT !.acc = Append(@, L[p].msg)]
+       ELSE LSet(p, [pc |-> "hw"]) /\ UNCHANGED <<C, G>>
+  /\ UNCHANGED <<S, token, woken, now>>
 \* Signal::send: write the value into the claimed receiver's slot, then wake it
 HandWrite(p) ==
   /\ L[p].pc = "hw" /\ Assert(Live(L[p].tgt), "write into a finished signal")
@@ -602,4 +604,11 @@ RECURSIVE Filter(_, _)
 Filter(s, p) == IF s = <<>> THEN <<>> ELSE (IF Head(s)[1] = p THEN <<Head(s)>> ELSE <<>>) \o Filter(Tail(s), p)
 Increasing(s) == \A a, b \in 1..Len(s) : a < b => s[a][2] < s[b][2]
 PerProducerFifo == \A p \in Senders : Increasing(Filter(G.order, p))
+\* C02 at design level: values are handed out in the order the channel accepted them (buffered, registered as a
+\* blocked / pending sender, or handed over directly); cancelled ones simply never appear in the hand-out order
+InOrder(m) == \E k \in 1..Len(G.order) : G.order[k] = m
+Fifo == SelectSeq(G.acc, InOrder) = G.order
+\* stronger, state form: a value is never handed out while a value accepted before it is still waiting in the channel
+Present(m) == InQueue(m) \/ \E k \in 1..Len(C.wl) : S[C.wl[k]].slot = m
+FifoNow == \A a, b \in 1..Len(G.acc) : (a < b /\ InOrder(G.acc[b])) => (InOrder(G.acc[a]) \/ ~Present(G.acc[a]))
 =============================================================================
